@@ -49,6 +49,7 @@ func runC04(c *Ctx, r *Report) {
 	c04BoundedParsers(c, r, "C04.R14")
 	c04PreparedRequest(c, r, "C04.R15")
 	c04HelloConn(c, r, "C04.R16")
+	c04HeaderAddrs(c, r, "C04.R17")
 	c08QuicAddr(c, r, "C04.R9") // a panic of the library, reachable with two simultaneous datagrams
 	// R6
 	r.rule("C04.R6", "no method call on a nil upstream slot in any selection policy (path evaluation, pools of 0..3)", 6)
